@@ -242,6 +242,10 @@ def validate_trace(ctx, module, cfg, trace, consts=None, timeout=900, first_line
         if r['ok']:
             return dict(accepted=True, states=r.get('distinct', 0), generated=r.get('generated', 0))
         out = r['out']
+        m = re.search(r'<<"HW", (\d+)>>', out)
+        if m and 'Postcondition' in out:
+            # specs with silent steps report the highest line index reached themselves
+            return dict(accepted=False, line=int(m.group(1)), states=r.get('distinct', 0))
         if 'Postcondition' in out and 'is false' in out and 'depth' in r:
             # depth = number of lines consumed + 1 (initial state); the next line is first_line + consumed
             return dict(accepted=False, line=first_line + r['depth'] - 1, states=r.get('distinct', 0))
@@ -354,11 +358,14 @@ def judge_traces(ctx, module, cfg, traces, strict=None, shard_lines=6000, label=
     total_acc = 0
     with cf.ThreadPoolExecutor(max_workers=NCPU) as ex:
         results = list(ex.map(work, files))
+    rejected = []
     for accepted, bad, states, hdr in results:
         total_acc += accepted
         ctx.cov['events_validated'] += states
         for scen, at in bad:
-            classify(ctx, module, cfg, hdr, scen, at, strict, known)
+            rejected.append((hdr, scen, at))
+    with cf.ThreadPoolExecutor(max_workers=NCPU) as ex:
+        list(ex.map(lambda x: classify(ctx, module, cfg, x[0], x[1], x[2], strict, known), rejected))
     ctx.cov['traces_validated_against_impl'] += total_acc
     ctx.log('%s: %d scenarios accepted, %d rejected' % (label or module, total_acc, sum(len(b) for _, b, _, _ in results)))
     return total_acc
